@@ -87,14 +87,26 @@ impl Add<Duration> for Duration {
     type Output = Duration;
 
     fn add(self, rhs: Duration) -> Self::Output {
-        let mut sec = self.sec.saturating_add(rhs.sec);
         let mut nanosec = (self.nanosec as u64) + (rhs.nanosec as u64);
         let sec_in_nanosec = nanosec / 1_000_000_000;
         nanosec -= sec_in_nanosec * 1_000_000_000;
-        sec = sec.saturating_add(sec_in_nanosec as i32);
-        Self {
-            sec,
-            nanosec: nanosec as u32,
+        let sec = self.sec as i64 + rhs.sec as i64 + sec_in_nanosec as i64;
+        // Saturate the whole value (not only the seconds) so that the result stays monotone
+        if sec > i32::MAX as i64 {
+            Self {
+                sec: i32::MAX,
+                nanosec: 999_999_999,
+            }
+        } else if sec < i32::MIN as i64 {
+            Self {
+                sec: i32::MIN,
+                nanosec: 0,
+            }
+        } else {
+            Self {
+                sec: sec as i32,
+                nanosec: nanosec as u32,
+            }
         }
     }
 }
@@ -103,15 +115,31 @@ impl Sub<Duration> for Duration {
     type Output = Duration;
 
     fn sub(self, rhs: Duration) -> Self::Output {
-        let mut sec = self.sec.saturating_sub(rhs.sec);
+        let mut sec = self.sec as i64 - rhs.sec as i64;
         let nanosec_diff = (self.nanosec as i64) - (rhs.nanosec as i64);
         let nanosec = if nanosec_diff < 0 {
-            sec = sec.saturating_sub(1);
+            sec -= 1;
             (1_000_000_000 + nanosec_diff) as u32
         } else {
             self.nanosec - rhs.nanosec
         };
-        Self { sec, nanosec }
+        // Saturate the whole value (not only the seconds) so that the result stays monotone
+        if sec > i32::MAX as i64 {
+            Self {
+                sec: i32::MAX,
+                nanosec: 999_999_999,
+            }
+        } else if sec < i32::MIN as i64 {
+            Self {
+                sec: i32::MIN,
+                nanosec: 0,
+            }
+        } else {
+            Self {
+                sec: sec as i32,
+                nanosec,
+            }
+        }
     }
 }
 
@@ -218,14 +246,26 @@ impl Add<Duration> for Time {
     type Output = Time;
 
     fn add(self, rhs: Duration) -> Self::Output {
-        let mut sec = self.sec.saturating_add(rhs.sec);
         let mut nanosec = (self.nanosec as u64) + (rhs.nanosec as u64);
         let sec_in_nanosec = nanosec / 1_000_000_000;
         nanosec -= sec_in_nanosec * 1_000_000_000;
-        sec = sec.saturating_add(sec_in_nanosec as i32);
-        Self {
-            sec,
-            nanosec: nanosec as u32,
+        let sec = self.sec as i64 + rhs.sec as i64 + sec_in_nanosec as i64;
+        // Saturate the whole value (not only the seconds) so that the result stays monotone
+        if sec > i32::MAX as i64 {
+            Self {
+                sec: i32::MAX,
+                nanosec: 999_999_999,
+            }
+        } else if sec < i32::MIN as i64 {
+            Self {
+                sec: i32::MIN,
+                nanosec: 0,
+            }
+        } else {
+            Self {
+                sec: sec as i32,
+                nanosec: nanosec as u32,
+            }
         }
     }
 }
